@@ -39,17 +39,24 @@ from sa.cfacts import kids
 TID = "TID"
 
 PARALLEL = {"OMPParallelDirective": "parallel", "OMPParallelForDirective": "parallel for",
-            "OMPParallelForSimdDirective": "parallel for simd"}
+            "OMPParallelForSimdDirective": "parallel for simd",
+            "OMPParallelSectionsDirective": "parallel sections"}
+SECTIONS = {"OMPSectionsDirective": "sections", "OMPParallelSectionsDirective": "parallel sections"}
+SECTION = {"OMPSectionDirective": "section"}
+NOOP = {"OMPFlushDirective": "flush", "OMPTaskwaitDirective": "taskwait", "OMPTaskyieldDirective": "taskyield"}
 WS = {"OMPForDirective": "for", "OMPParallelForDirective": "parallel for",
       "OMPForSimdDirective": "for simd", "OMPParallelForSimdDirective": "parallel for simd"}
 SIMD = {"OMPSimdDirective": "simd"}   # no threading semantics: its loop variable is private, body transparent
 PROTECT = {"OMPCriticalDirective": "critical", "OMPSingleDirective": "single",
-           "OMPMasterDirective": "master", "OMPAtomicDirective": "atomic"}
-ONE_THREAD = ("single", "master")
+           "OMPMasterDirective": "master", "OMPAtomicDirective": "atomic", "OMPOrderedDirective": "ordered"}
+ONE_THREAD = ("single", "master", "section")   # the block is executed by one thread of the team
+MUTEX = ("critical", "atomic", "ordered")      # executed by every thread, one at a time
 BARRIER = {"OMPBarrierDirective": "barrier"}
 KNOWN_CLAUSES = {"private", "firstprivate", "lastprivate", "reduction", "shared", "default",
                  "schedule", "collapse", "nowait", "num_threads", "if", "ordered",
-                 "simdlen", "safelen", "aligned", "linear", "proc_bind"}
+                 "simdlen", "safelen", "aligned", "linear", "proc_bind", "copyin", "copyprivate",
+                 "nontemporal", "order", "allocate", "hint", "seq_cst", "acq_rel", "release", "acquire",
+                 "relaxed", "read", "write", "update", "capture", "threads", "simd"}
 
 ALLOC = {"malloc": None, "calloc": None, "fftw_malloc": None, "alloca": None, "realloc": None,
          "mkl_malloc": None}
@@ -63,7 +70,12 @@ EXTERN_WRITES = {
     "fftw_execute": [], "fftw_destroy_plan": [], "fftw_free": [], "fftw_init_threads": [],
     "fftw_plan_with_nthreads": [], "fftw_plan_many_dft": [], "fftw_plan_many_dft_c2r": [],
     "fftw_plan_many_dft_r2c": [],
-    "printf": [], "free": [], "exit": [], "setbuf": [], "__assert_fail": [],
+    "printf": [], "free": [], "exit": [], "setbuf": [], "__assert_fail": [], "fprintf": [], "puts": [],
+    "fputs": [], "fflush": [], "perror": [], "abort": [], "strlen": [], "strcmp": [], "strncmp": [],
+    "sprintf": [0], "snprintf": [0], "strcpy": [0], "strncpy": [0], "qsort": [0],
+    "ddot_": [], "dnrm2_": [], "dasum_": [], "idamax_": [], "zaxpy_": [3], "zscal_": [2], "zcopy_": [3],
+    "dtrsm_": [9], "dtrmm_": [9], "dsyr_": [5], "dsyr2k_": [11], "zgemv_": [9], "dgesv_": [2, 4, 5, 7],
+    "dgetrf_": [2, 4, 5], "dgetri_": [1, 4, 6], "dsyev_": [4, 6, 7, 9], "dposv_": [4, 6, 8],
     "xc_func_init": [0], "xc_func_set_dens_threshold": [0],
     "xc_lda_exc_vxc": [3, 4], "xc_gga_exc_vxc": [4, 5, 6], "xc_mgga_exc_vxc": [6, 7, 8, 9, 10],
     "omp_get_thread_num": [], "omp_get_num_threads": [], "omp_get_max_threads": [],
@@ -179,8 +191,22 @@ class Pragma:
                 if ":" not in a:
                     raise AnalysisError("reduction clause without operator: %s" % self.text)
                 a = a.split(":", 1)[1]
-            out += [v.strip() for v in a.split(",") if v.strip()]
+            elif name == "linear":
+                a = a.split(":", 1)[0]           # linear(list : step)
+            elif name == "lastprivate" and ":" in a:
+                a = a.split(":", 1)[1]           # lastprivate(conditional: list)
+            # array sections `a[0:n]` name the array
+            out += [re.sub(r"\[.*$", "", v.strip()) for v in re.split(r",(?![^\[]*\])", a) if v.strip()]
         return out
+
+    def has(self, name):
+        return any(n == name for n, _ in self.clauses)
+
+    def schedule_kind(self):
+        a = self.args("schedule")
+        if not a or a[0] is None:
+            return None
+        return re.sub(r"\s+", "", a[0].split(":")[-1])
 
     def collapse(self):
         a = self.args("collapse")
@@ -192,10 +218,18 @@ class Pragma:
             raise AnalysisError("collapse argument is not an integer literal: %s" % self.text)
 
 
-_DIRWORDS = ("parallel", "for", "simd", "single", "critical", "barrier", "master", "atomic")
+_DIRWORDS = ("parallel", "for", "simd", "single", "critical", "barrier", "master", "atomic", "sections",
+             "section", "ordered", "flush", "taskwait", "taskyield")
 
 
-def pragma_of(tu, node):
+def expected_directive(kind):
+    for table in (PARALLEL, WS, SIMD, PROTECT, BARRIER, SECTIONS, SECTION, NOOP):
+        if kind in table:
+            return table[kind]
+    return None
+
+
+def pragma_of(tu, node, expect=None):
     off = node.get("range", {}).get("begin", {}).get("offset")
     if off is None:
         raise AnalysisError("OpenMP directive without source offset in %s" % tu.rel)
@@ -254,12 +288,17 @@ def pragma_of(tu, node):
             i = k + 1
         toks.append((name, arg))
     dirw = []
-    while toks and toks[0][0] in _DIRWORDS and (toks[0][1] is None or toks[0][0] == "critical"):
+    while toks and toks[0][0] in _DIRWORDS and (toks[0][1] is None or toks[0][0] in ("critical", "flush")):
+        if expect is not None and not (expect + " ").startswith(" ".join(dirw + [toks[0][0]]) + " "):
+            break   # e.g. `for ordered`: `ordered` is a clause of the `for` directive
         dirw.append(toks.pop(0)[0])
     directive = " ".join(dirw)
-    for name, _ in toks:
+    for name, arg in toks:
         if name not in KNOWN_CLAUSES:
             raise AnalysisError("unrecognised OpenMP clause %r in: %s" % (name, full.strip()))
+        if name == "default" and arg not in ("shared", "none"):
+            raise AnalysisError("default(%s) changes the data-sharing of every variable (not modelled): %s" % (
+                arg, full.strip()))
     return Pragma(re.sub(r"\s+", " ", full).strip(), directive, toks)
 
 
@@ -325,22 +364,26 @@ class Func:
     def _collect(self):
         if self.body is None:
             return
-        todo = [(self.body, False)]
+        todo = [(self.body, False, False)]
         while todo:
-            n, inreg = todo.pop()
+            n, inreg, prot = todo.pop()
             k = n.get("kind")
             ok = omp_kind(n)
             if ok:
+                prot2 = prot
                 if ok in PARALLEL:
                     if not inreg:
                         self.regions.append(n)
                     inreg2 = True
                 else:
-                    if not inreg:
+                    orphan_ok = ok in NOOP or ok in SIMD or PROTECT.get(ok) in MUTEX
+                    if not inreg and not orphan_ok:
                         self.has_omp_outside_region = True
+                    if PROTECT.get(ok) in MUTEX:
+                        prot2 = True   # orphaned critical/atomic in a helper: its stores are mutually exclusive
                     inreg2 = inreg
                 for c in children(n):
-                    todo.append((c, inreg2))
+                    todo.append((c, inreg2, prot2))
                 continue
             if k == "VarDecl":
                 self.vars[n["id"]] = n
@@ -353,19 +396,22 @@ class Func:
             elif k == "BinaryOperator" and n.get("opcode") == "=":
                 a, b = kids(n)
                 self.assigns.append((a, b))
-                self.stores.append(a)
+                if not (prot and not inreg):
+                    self.stores.append(a)
             elif k == "CompoundAssignOperator":
-                self.stores.append(kids(n)[0])
+                if not (prot and not inreg):
+                    self.stores.append(kids(n)[0])
                 self.cassigns.append((kids(n)[0], kids(n)[1]))
             elif k == "UnaryOperator" and n.get("opcode") in ("++", "--"):
-                self.stores.append(kids(n)[0])
+                if not (prot and not inreg):
+                    self.stores.append(kids(n)[0])
             elif k == "CallExpr":
                 self.calls.append(n)
             elif k == "ReturnStmt":
                 if kids(n):
                     self.returns.append(kids(n)[0])
             for c in reversed(children(n)):
-                todo.append((c, inreg))
+                todo.append((c, inreg, prot))
 
     # -- objects --------------------------------------------------------------
     def obj_of_var(self, rd):
@@ -761,16 +807,17 @@ class WSLoop:
 
 
 class Ctx:
-    __slots__ = ("ws", "prot", "privs", "ctrl")
+    __slots__ = ("ws", "prot", "privs", "ctrl", "pnode")
 
-    def __init__(self, ws=(), prot=None, privs=frozenset(), ctrl=()):
+    def __init__(self, ws=(), prot=None, privs=frozenset(), ctrl=(), pnode=None):
         self.ws = ws
         self.prot = prot
         self.privs = privs
         self.ctrl = ctrl
+        self.pnode = pnode   # id of the protecting construct (single/master/section/critical...)
 
     def but(self, **kw):
-        c = Ctx(self.ws, self.prot, self.privs, self.ctrl)
+        c = Ctx(self.ws, self.prot, self.privs, self.ctrl, self.pnode)
         for k, v in kw.items():
             setattr(c, k, v)
         return c
@@ -778,7 +825,8 @@ class Ctx:
 
 class Item:
     """one classified store / call output argument"""
-    __slots__ = ("kind", "node", "expr", "cls", "why", "base", "objs", "line", "text", "callee", "argi")
+    __slots__ = ("kind", "node", "expr", "cls", "why", "base", "objs", "line", "text", "callee", "argi",
+                 "ctx", "phase", "labs")
 
     def __init__(self, **kw):
         for k in self.__slots__:
@@ -793,7 +841,7 @@ class Region:
         self.node = node
         self.ordinal = ordinal
         self.kind = PARALLEL[node["kind"]]
-        self.pragma = pragma_of(self.tu, node)
+        self.pragma = pragma_of(self.tu, node, self.kind)
         if self.pragma.directive != self.kind:
             raise AnalysisError("%s: pragma text %r does not match AST node %s" % (
                 func.name, self.pragma.text, node["kind"]))
@@ -816,6 +864,17 @@ class Region:
         self.nonuniform = []    # (directive node, kind, reason)
         self.uniform_ok = []
         self.tid_scratch = []   # (ok, description, node)
+        # barrier phases: events of one phase may run concurrently in different threads; a barrier
+        # (explicit, or implied at the end of for/sections/single without nowait) starts a new phase
+        self.phase = 0
+        self.nphase = 1
+        self.mhp = set()        # pairs of distinct phases that may still overlap (loop back edges)
+        self.phase_of = {}      # id(event node) -> phase
+        self.read_ev = []       # (node, ctx, phase)
+        self._noread = set()    # id(node) of lvalues that are stored to / address-taken, not loaded
+        self.barrier_deps = []  # (description) dependences between differently partitioned accesses, ordered
+        self.barrier_conflicts = []  # (kind, w item-like, r, description)
+        self.block_clips = []   # (ok, description, node)
         self.region_privs = self._clause_vars(node, self.pragma, ("private", "firstprivate", "lastprivate",
                                                                   "reduction"))
         self.reduction_ids = self._clause_vars(node, self.pragma, ("reduction",))
@@ -889,10 +948,39 @@ class Region:
             self.ws_loops.append(loop)
             self.directives.append((self.kind, self.node, ctx, self.pragma))
             ctx = ctx.but(ws=(loop,), privs=ctx.privs | frozenset(loop.ivs))
-        self._visit(self.body, ctx)
+        if self.node["kind"] in SECTIONS:
+            self.directives.append((self.kind, self.node, ctx, self.pragma))
+            self._visit_sections(self.body, ctx)
+        else:
+            self._visit(self.body, ctx)
         self._propagate()
         self._classify()
         self._uniformity()
+        self._barrier_order()
+        self._block_clip()
+
+    def _barrier(self):
+        self.phase = self.nphase
+        self.nphase += 1
+
+    def _visit_sections(self, body, ctx):
+        """the structured block of a sections construct: each `section` (the first one may be implicit) is
+        executed once, by one thread"""
+        stmts = kids(body) if body.get("kind") == "CompoundStmt" else [body]
+        for c in stmts:
+            if c.get("kind") in SECTION:
+                b = omp_body(c)
+                if b is not None:
+                    self._visit(b, ctx.but(prot="section", pnode=c["id"]))
+            else:
+                self._visit(c, ctx.but(prot="section", pnode=c["id"]))
+
+    def _has_barrier_point(self, n):
+        for x in pwalk(n):
+            ok = omp_kind(x)
+            if ok and (ok in WS or ok in SECTIONS or ok in BARRIER or ok == "OMPSingleDirective"):
+                return True
+        return False
 
     def _visit(self, n, ctx):
         k = n.get("kind")
@@ -901,7 +989,26 @@ class Region:
             if ok in PARALLEL:
                 raise AnalysisError("%s: nested parallel region at line %d is not modelled" % (
                     self.func.name, self.tu.line_of(n)))
-            pragma = pragma_of(self.tu, n)
+            pragma = pragma_of(self.tu, n, expected_directive(ok))
+            if ok in NOOP:
+                return
+            if ok in SECTIONS or ok in SECTION:
+                if ok in SECTION:   # only reachable for a malformed tree; treat as a one-thread block
+                    b = omp_body(n)
+                    if b is not None:
+                        self._visit(b, ctx.but(prot="section", pnode=n["id"]))
+                    return
+                if ctx.ws or ctx.prot:
+                    self.nesting.append((n, "sections nested inside %s" % (
+                        "a worksharing loop" if ctx.ws else ctx.prot)))
+                self.directives.append(("sections", n, ctx, pragma))
+                privs = ctx.privs | self._clause_vars(
+                    n, pragma, ("private", "firstprivate", "lastprivate", "reduction"))
+                self.reduction_ids = self.reduction_ids | self._clause_vars(n, pragma, ("reduction",))
+                self._visit_sections(omp_body(n), ctx.but(privs=privs))
+                if not pragma.has("nowait"):
+                    self._barrier()
+                return
             if ok in SIMD:
                 loop = self._ws_loop(n, pragma)
                 privs = ctx.privs | frozenset(loop.ivs) | self._clause_vars(
@@ -921,6 +1028,8 @@ class Region:
                     n, pragma, ("private", "firstprivate", "lastprivate", "reduction", "linear"))
                 self.reduction_ids = self.reduction_ids | self._clause_vars(n, pragma, ("reduction",))
                 self._visit(omp_body(n), ctx.but(ws=ctx.ws + (loop,), privs=privs))
+                if not pragma.has("nowait"):
+                    self._barrier()
                 return
             if ok in PROTECT:
                 kind = PROTECT[ok]
@@ -934,13 +1043,16 @@ class Region:
                 b = omp_body(n)
                 if b is not None:
                     privs = ctx.privs | self._clause_vars(n, pragma, ("private", "firstprivate"))
-                    self._visit(b, ctx.but(prot=kind, privs=privs))
+                    self._visit(b, ctx.but(prot=kind, privs=privs, pnode=n["id"]))
+                if kind == "single" and not pragma.has("nowait"):
+                    self._barrier()   # implied barrier at the END of single (none at its entry)
                 return
             if ok in BARRIER:
                 if ctx.ws or ctx.prot:
                     self.nesting.append((n, "barrier nested inside %s" % (
                         "a worksharing loop" if ctx.ws else ctx.prot)))
                 self.directives.append(("barrier", n, ctx, pragma))
+                self._barrier()
                 return
             raise AnalysisError("%s: OpenMP construct %s at line %d is not modelled" % (
                 self.func.name, ok, self.tu.line_of(n)))
@@ -950,16 +1062,30 @@ class Region:
                 self.assign_ev.append((n["id"], init, ctx))
                 self._visit(init, ctx)
             return
+        if k in ("ArraySubscriptExpr", "MemberExpr", "DeclRefExpr") or (
+                k == "UnaryOperator" and n.get("opcode") == "*"):
+            if id(n) not in self._noread and not is_array(qt(n)) and not (
+                    k == "DeclRefExpr" and n["referencedDecl"].get("kind") == "FunctionDecl"):
+                self.read_ev.append((n, ctx, self.phase))
         if k == "BinaryOperator" and n.get("opcode") == "=":
             a, b = kids(n)
             self.store_ev.append((n, a, b, ctx))
+            self.phase_of[id(n)] = self.phase
+            self._noread.add(id(strip(a)))
         elif k == "CompoundAssignOperator":
             a, b = kids(n)
             self.store_ev.append((n, a, b, ctx))
+            self.phase_of[id(n)] = self.phase
+            self._noread.add(id(strip(a)))
         elif k == "UnaryOperator" and n.get("opcode") in ("++", "--"):
             self.store_ev.append((n, kids(n)[0], None, ctx))
+            self.phase_of[id(n)] = self.phase
+            self._noread.add(id(strip(kids(n)[0])))
+        elif k == "UnaryOperator" and n.get("opcode") == "&":
+            self._noread.add(id(strip(kids(n)[0])))
         elif k == "CallExpr":
             self.call_ev.append((n, ctx))
+            self.phase_of[id(n)] = self.phase
             names, _ = self.prog.call_targets(self.func, n)
             if any(nm in ALLOC for nm in names) or any(
                     "alloc" in self.prog.summary[nm].returns for nm in names if nm in self.prog.funcs):
@@ -988,28 +1114,64 @@ class Region:
                     self._visit(x, ctx)
                     exprs.append(x)
             if body is not None:
-                self._visit(body, ctx.but(ctrl=ctx.ctrl + (("for", n, frozenset(own), tuple(exprs)),)))
+                self._loop_body(body, [body], ctx.but(ctrl=ctx.ctrl + (("for", n, frozenset(own), tuple(exprs)),)))
             return
-        elif k in ("WhileStmt", "IfStmt", "SwitchStmt"):
+        elif k == "IfStmt":
+            ks = kids(n)
+            cond = ks[0]
+            self._visit(cond, ctx)
+            sub = ctx.but(ctrl=ctx.ctrl + (("if", n, frozenset(), (cond,)),))
+            p0 = self.phase
+            ends = []
+            for c in ks[1:]:
+                self.phase = p0
+                self._visit(c, sub)
+                ends.append(self.phase)
+            if any(e != p0 for e in ends):
+                # a barrier on some branch: what follows is treated as ordered after what precedes
+                # (under-approximation of concurrency: never the source of a report)
+                self._barrier()
+            else:
+                self.phase = p0
+            return
+        elif k in ("WhileStmt", "SwitchStmt"):
             ks = kids(n)
             cond = ks[0]
             self._visit(cond, ctx)
             sub = ctx.but(ctrl=ctx.ctrl + ((k[:-4].lower(), n, frozenset(), (cond,)),))
-            for c in ks[1:]:
-                self._visit(c, sub)
+            if k == "WhileStmt":
+                self._loop_body(n, ks[1:], sub)
+            else:
+                for c in ks[1:]:
+                    self._visit(c, sub)
             return
         elif k == "DoStmt":
             ks = kids(n)
             cond = ks[-1]
             self._visit(cond, ctx)
             sub = ctx.but(ctrl=ctx.ctrl + (("do", n, frozenset(), (cond,)),))
-            for c in ks[:-1]:
-                self._visit(c, sub)
+            self._loop_body(n, ks[:-1], sub)
             return
         elif k == "ReturnStmt":
             raise AnalysisError("%s: return inside a parallel region" % self.func.name)
         for c in children(n):
             self._visit(c, ctx)
+
+    def _loop_body(self, scope, stmts, ctx):
+        """body of a serial loop.  If it contains barrier points, its first phase overlaps both the phase
+        before the loop and (back edge) the last phase of the body; the loop is assumed to run at least once."""
+        if not any(self._has_barrier_point(c) for c in stmts):
+            for c in stmts:
+                self._visit(c, ctx)
+            return
+        before = self.phase
+        self._barrier()
+        first = self.phase
+        self.mhp.add((before, first))
+        for c in stmts:
+            self._visit(c, ctx)
+        if self.phase != first:
+            self.mhp.add((self.phase, first))
 
     # -- label propagation ------------------------------------------------------
     def _refs(self, e):
@@ -1236,7 +1398,8 @@ class Region:
                     cls, why = "exception", self.exceptions[key]
             self.items.append(Item(kind="store", node=node, expr=lhs, cls=cls, why=why,
                                    base=self._base_name(lhs), objs=objs, line=self.tu.line_of(node),
-                                   text=self.tu.text_of(node)))
+                                   text=self.tu.text_of(node), ctx=ctx, phase=self.phase_of.get(id(node), 0),
+                                   labs=frozenset(self.taint(lhs, ctx))))
             if cls == "partitioned" and self.taint(lhs, ctx) == {TID}:
                 self._check_tid_scratch(node, lhs, objs, ctx)
         for node, ctx in self.call_ev:
@@ -1259,17 +1422,26 @@ class Region:
                     self.items.append(Item(kind="global", node=node, expr=node, cls=cls,
                                            why="inside omp %s" % ctx.prot if ctx.prot else None,
                                            base=gl, objs={("global", gl)}, line=self.tu.line_of(node),
-                                           text=self.tu.text_of(node), callee=nm))
+                                           text=self.tu.text_of(node), callee=nm, ctx=ctx,
+                                           phase=self.phase_of.get(id(node), 0), labs=frozenset()))
                 for i in sorted(w):
                     if i >= len(args):
                         continue
                     objs = f.pts_expr(args[i])
                     cls, why = self._decide(args[i], objs, ctx, depsets=self.prog.callee_wdeps(nm, i),
                                             args=args)
+                    labs = set()
+                    for d in self.prog.callee_wdeps(nm, i):
+                        for j in d:
+                            if j == "T":
+                                labs.add(TID)
+                            elif j < len(args):
+                                labs |= self.taint(args[j], ctx)
                     self.items.append(Item(kind="call", node=node, expr=args[i], cls=cls, why=why,
                                            base=self._base_name(args[i]), objs=objs,
                                            line=self.tu.line_of(node), text=self.tu.text_of(node),
-                                           callee=nm, argi=i))
+                                           callee=nm, argi=i, ctx=ctx, phase=self.phase_of.get(id(node), 0),
+                                           labs=frozenset(labs)))
 
     def _check_tid_scratch(self, node, lhs, objs, ctx):
         """a buffer allocated in this function and split between threads by thread id must be sized
@@ -1287,6 +1459,337 @@ class Region:
                         ok = True
                 self.tid_scratch.append((ok, "%s: buffer %s indexed by thread id, allocated by %s" % (
                     f.name, self._base_name(lhs), re.sub(r"\s+", " ", self.tu.text_of(c))), c))
+
+    # -- accesses under different partitions must be separated by a barrier -------
+    def _sig(self, e):
+        """name of the struct member first applied on the way from the root pointer to the accessed
+        location (None if the access path has no member): distinguishes fields of a collapsed object"""
+        names = []
+        e = strip(e)
+        for _ in range(64):
+            k = e.get("kind")
+            if k == "MemberExpr":
+                names.append(e.get("name"))
+                e = strip(kids(e)[0])
+            elif k == "ArraySubscriptExpr":
+                a, b = kids(e)
+                e = strip(a if ptrish(qt(a)) else b)
+            elif k == "UnaryOperator":
+                e = strip(kids(e)[0])
+            elif k == "BinaryOperator" and e.get("opcode") in ("+", "-"):
+                a, b = kids(e)
+                e = strip(a if ptrish(qt(a)) else b)
+            else:
+                break
+        return names[-1] if names else None
+
+    def _flat_access(self, o, e):
+        """True if access expression e designates plain numbers of object o, i.e. the field-insensitive
+        object model cannot confuse it with a different field / level of indirection of o"""
+        e = strip(e)
+        direct = e.get("kind") == "DeclRefExpr"
+        if o[0] in ("var", "global"):
+            if direct:
+                return True
+            d = self.func.vars.get(o[1]) if o[0] == "var" else None
+            return d is not None and is_array(qt(d)) and is_arith(re.sub(r"\[[^\]]*\]", "", qt(d))) \
+                and is_arith(qt(e))
+        if not is_arith(qt(e)):
+            return False
+        if o[0] == "param":
+            q = qt(self.func.params[o[1]]).strip()
+            q = re.sub(r"\[[^\]]*\]$", "*", q)
+            return q.endswith("*") and is_arith(q[:-1])
+        if o[0] == "alloc":
+            return self._sig(e) is None
+        return False
+
+    def _extent(self, e, labs, ctx, is_call=False):
+        """which part of its object an access may touch: 'share' (the executing thread's part under the
+        partition given by labs), 'sweep' (index varies with a private, unpartitioned variable: any
+        element), or 'point' (fixed element: the same for every thread)"""
+        if labs:
+            return "share"
+        if is_call:
+            return "sweep"
+        root = self._root_decl(e)
+        ids, _, _ = self._refs(e)
+        for i in ids:
+            if i != root and self.is_private_var(i, ctx):
+                return "sweep"
+        return "point"
+
+    def _root_decl(self, e):
+        e = strip(e)
+        for _ in range(64):
+            k = e.get("kind")
+            if k == "DeclRefExpr":
+                return e["referencedDecl"]["id"]
+            if k == "ArraySubscriptExpr":
+                a, b = kids(e)
+                e = strip(a if ptrish(qt(a)) else b)
+            elif k in ("MemberExpr", "UnaryOperator"):
+                e = strip(kids(e)[0])
+            elif k == "BinaryOperator" and e.get("opcode") in ("+", "-"):
+                a, b = kids(e)
+                e = strip(a if ptrish(qt(a)) else b)
+            else:
+                return None
+        return None
+
+    def _mhp(self, p, q):
+        return p == q or (p, q) in self.mhp or (q, p) in self.mhp
+
+    def _same_partition(self, lw, lr, cw, cr):
+        """both accesses stay inside the executing thread's own share of the object"""
+        if TID in lw and TID in lr:
+            return True
+        if (lw & lr) - {TID}:
+            return True   # same worksharing loop, same iteration
+        ww, wr = lw - {TID}, lr - {TID}
+        if ww and wr:
+            # two different worksharing loops: the same thread gets the same iterations only under
+            # schedule(static) with identical clauses (OpenMP 4.5 sec. 2.7.1)
+            la = [l for l in cw.ws if l.id in ww]
+            lb = [l for l in cr.ws if l.id in wr]
+            if la and lb and la[0].pragma.schedule_kind() == "static" and lb[0].pragma.schedule_kind() == "static" \
+                    and la[0].pragma.collapse() == lb[0].pragma.collapse():
+                return True
+        return False
+
+    def _excluded_pair(self, cw, cr):
+        if cw.prot in MUTEX and cr.prot in MUTEX:
+            return True                      # mutually exclusive blocks
+        if cw.pnode is not None and cw.pnode == cr.pnode:
+            return True                      # same single/master/section block: one thread
+        if cw.prot == "section" and cr.prot == "section":
+            return True                      # different sections: not examined
+        return False
+
+    def _barrier_order(self):
+        f = self.func
+        writes = {}
+        for it in self.items:
+            if it.cls not in ("partitioned", "protected") or it.kind == "global":
+                continue
+            sig = self._sig(it.expr)
+            for o in it.objs:
+                if o[0] == "unknown" or self.obj_private(o, it.ctx):
+                    continue
+                wexpr = it.expr
+                if it.kind == "call":
+                    # the callee writes *arg: judge the pointee type of the argument
+                    t = qt(it.expr).strip()
+                    if not (t.endswith("*") and is_arith(t[:-1])) or o[0] in ("var", "global") and \
+                            strip(it.expr).get("kind") == "DeclRefExpr" and not is_array(qt(strip(it.expr))):
+                        continue
+                elif not self._flat_access(o, wexpr):
+                    continue
+                writes.setdefault(o, []).append((it, it.labs if it.cls == "partitioned" else frozenset(), sig))
+        if not writes:
+            return
+        seen = set()
+        ordered = set()
+
+        def pair(kind, wit, wl, wsig, rnode, rctx, rphase, rl, rsig, o, rtext, rline, r_is_call=False):
+            if (wsig is None) != (rsig is None) or (wsig is not None and wsig != rsig):
+                return
+            if self._same_partition(wl, rl, wit.ctx, rctx) or self._excluded_pair(wit.ctx, rctx):
+                return
+            # do the two accesses overlap?  share/sweep extents of one object are assumed to; a fixed
+            # element only conflicts with the textually identical fixed element
+            xw = self._extent(wit.expr, wl, wit.ctx, wit.kind == "call")
+            xr = self._extent(rnode, rl, rctx, r_is_call)
+            if "point" in (xw, xr):
+                wtext = re.sub(r"\s+", " ", self.tu.text_of(wit.expr))
+                if not (xw == xr and wtext == rtext):
+                    return
+            key = (kind, o, wit.base, rtext)
+            if not self._mhp(wit.phase, rphase):
+                ordered.add((kind, self._describe({o}), wit.base, rtext))
+                return
+            if key in seen:
+                return
+            seen.add(key)
+            self.barrier_conflicts.append({
+                "kind": kind, "object": self._describe({o}), "wbase": wit.base, "wtext": wit.text,
+                "wline": wit.line, "wpart": self._part_text(wl, wit.ctx), "rtext": rtext, "rline": rline,
+                "rpart": self._part_text(rl, rctx)})
+
+        for node, ctx, phase in self.read_ev:
+            objs = [o for o in f.objects(node) if o in writes and self._flat_access(o, node)]
+            if not objs:
+                continue
+            if self._thread_selective_guard(ctx):
+                continue
+            rl = frozenset(self.taint(node, ctx))
+            rsig = self._sig(node)
+            rtext = re.sub(r"\s+", " ", self.tu.text_of(node))
+            for o in objs:
+                if self.obj_private(o, ctx):
+                    continue
+                for wit, wl, wsig in writes[o]:
+                    pair("read", wit, wl, wsig, node, ctx, phase, rl, rsig, o, rtext, self.tu.line_of(node))
+        for o, ws in writes.items():
+            for i, (a, la, sa) in enumerate(ws):
+                for b, lb, sb in ws[i + 1:]:
+                    if a.node is b.node:
+                        continue
+                    pair("write", a, la, sa, b.expr, b.ctx, b.phase, lb, sb, o,
+                         re.sub(r"\s+", " ", self.tu.text_of(b.expr)), b.line, b.kind == "call")
+        self.barrier_deps = sorted(ordered)
+
+    def _part_text(self, labs, ctx):
+        if not labs:
+            return "no partition (%s)" % ("inside omp %s" % ctx.prot if ctx.prot else "every thread, whole object")
+        out = []
+        for lab in sorted(labs):
+            if lab == TID:
+                out.append("thread id")
+            else:
+                for l in ctx.ws:
+                    if l.id == lab:
+                        out.append("worksharing loop over %s (line %d)" % ("/".join(l.iv_names),
+                                                                          self.tu.line_of(l.node)))
+        return ", ".join(out)
+
+    # -- manual block partition by the thread count ---------------------------------
+    def _lin(self, e):
+        """expression -> {symbol: coefficient} (symbol None = constant); products of two non-constant
+        factors and anything else become opaque symbols"""
+        e = strip(e)
+        k = e.get("kind")
+        if k == "IntegerLiteral":
+            try:
+                return {None: int(e.get("value"))}
+            except (TypeError, ValueError):
+                return {("opaque", self.tu.text_of(e)): 1}
+        if k == "DeclRefExpr":
+            return {e["referencedDecl"]["id"]: 1}
+        if k == "UnaryOperator" and e.get("opcode") == "-":
+            return {s_: -c for s_, c in self._lin(kids(e)[0]).items()}
+        if k == "BinaryOperator" and e.get("opcode") in ("+", "-"):
+            a, b = (self._lin(x) for x in kids(e))
+            sign = 1 if e["opcode"] == "+" else -1
+            out = dict(a)
+            for s_, c in b.items():
+                out[s_] = out.get(s_, 0) + sign * c
+            return {s_: c for s_, c in out.items() if c != 0}
+        if k == "BinaryOperator" and e.get("opcode") == "*":
+            a, b = (self._lin(x) for x in kids(e))
+            for x, y in ((a, b), (b, a)):
+                if set(x) <= {None}:
+                    c0 = x.get(None, 0)
+                    return {s_: c * c0 for s_, c in y.items() if c * c0 != 0}
+            if len(a) == 1 and len(b) == 1 and None not in a and None not in b:
+                (sa, ca), (sb, cb) = list(a.items())[0], list(b.items())[0]
+                return {("mul",) + tuple(sorted((str(sa), str(sb)))): ca * cb}
+        return {("opaque", re.sub(r"\s+", "", self.tu.text_of(e))): 1}
+
+    def _leaves(self, e, guards=()):
+        """value paths of e through conditional operators (MIN/MAX expand to those) -> [(linear form, guards)]"""
+        e = strip(e)
+        k = e.get("kind")
+        if k == "ConditionalOperator":
+            c, a, b = kids(e)
+            return self._leaves(a, guards + (c,)) + self._leaves(b, guards + (c,))
+        if k == "BinaryOperator" and e.get("opcode") in ("+", "-"):
+            la, lb = self._leaves(kids(e)[0], guards), self._leaves(kids(e)[1], guards)
+            if len(la) * len(lb) > 16:
+                return [(self._lin(e), guards)]
+            sign = 1 if e["opcode"] == "+" else -1
+            out = []
+            for fa, ga in la:
+                for fb, gb in lb:
+                    f = dict(fa)
+                    for s_, c in fb.items():
+                        f[s_] = f.get(s_, 0) + sign * c
+                    out.append(({s_: c for s_, c in f.items() if c != 0}, tuple(ga) + tuple(g for g in gb if g not in ga)))
+            return out
+        return [(self._lin(e), guards)]
+
+    def _block_clip(self):
+        """Idiom `B = (N + T - 1) / T` (T = thread count), `ip = B * t`: the block [ip, ip + B) of thread t
+        can stick out past N (whenever (T-1)*ceil(N/T) > N), so a length `B` / end `ip + B` must be clipped
+        against N on every value path (MIN(ip + B, N) - ip, MIN(B, N - ip), or an `if` that compares with N)."""
+        if not self.nt_vars:
+            return
+        assigns = [(vid, rhs, ctx) for vid, rhs, ctx in self.assign_ev]
+        for node, lhs, rhs, ctx in self.store_ev:
+            l = strip(lhs)
+            if rhs is not None and node.get("kind") == "BinaryOperator" and l.get("kind") == "DeclRefExpr":
+                assigns.append((l["referencedDecl"]["id"], rhs, ctx))
+        by_var = {}
+        for vid, rhs, ctx in assigns:
+            by_var.setdefault(vid, []).append((rhs, ctx))
+        # ceil splits by the thread count
+        splits = {}   # B id -> (N id, T id)
+        for vid, lst in by_var.items():
+            if len(lst) != 1:
+                continue
+            e = strip(lst[0][0])
+            if e.get("kind") != "BinaryOperator" or e.get("opcode") != "/":
+                continue
+            num, den = self._lin(kids(e)[0]), self._lin(kids(e)[1])
+            if len(den) != 1 or None in den:
+                continue
+            t = list(den)[0]
+            if t not in self.nt_vars or den[t] != 1:
+                continue
+            rest = {s_: c for s_, c in num.items() if s_ not in (t, None)}
+            if num.get(t) == 1 and num.get(None) == -1 and len(rest) == 1 and list(rest.values())[0] == 1 \
+                    and isinstance(list(rest)[0], str):
+                splits[vid] = (list(rest)[0], t)
+        if not splits:
+            return
+        name = {}
+        for i, d in self.func.vars.items():
+            name[i] = d.get("name", "?")
+        loop_bound_vars = set()
+        for n in pwalk(self.body):
+            if n.get("kind") == "ForStmt":
+                _, cond, _, _ = for_slots(n)
+                if cond is not None:
+                    loop_bound_vars |= set(self._refs(cond)[0])
+        for b, (nvar, t) in splits.items():
+            ips = set()
+            for vid, lst in by_var.items():
+                for rhs, ctx in lst:
+                    f = self._lin(rhs)
+                    if len(f) == 1 and list(f.values())[0] == 1 and isinstance(list(f)[0], tuple) \
+                            and list(f)[0][0] == "mul" and str(b) in list(f)[0][1:]:
+                        ips.add(vid)
+            for vid, lst in sorted(by_var.items()):
+                if vid == b or vid in ips or vid not in loop_bound_vars:
+                    continue
+                bad = None
+                relevant = False
+                for rhs, ctx in lst:
+                    if b not in self._refs(rhs)[0]:
+                        continue
+                    for f, guards in self._leaves(rhs):
+                        full = (f == {b: 1}) or any(f == {b: 1, ip: 1} for ip in ips)
+                        if f == {b: 1} or any(f == {b: 1, ip: 1} for ip in ips) or nvar in f:
+                            relevant = True
+                        if not full:
+                            continue
+                        gs = list(guards) + [ex for ck, _, _, exprs in ctx.ctrl if ck == "if" for ex in exprs]
+                        if not any(nvar in self._refs(g)[0] for g in gs):
+                            bad = (rhs, f)
+                if not relevant:
+                    continue
+                # a later `if (... N ...) V = ...;` clips at statement level
+                clipped_elsewhere = any(
+                    any(nvar in self._refs(ex)[0] for ck, _, _, exprs in ctx.ctrl if ck == "if" for ex in exprs)
+                    for rhs, ctx in lst)
+                desc = "%s: block bound %s of the ceil split %s = (%s + %s - 1) / %s" % (
+                    self.func.name, name.get(vid, "?"), name.get(b, "?"), name.get(nvar, "?"), name.get(t, "?"),
+                    name.get(t, "?"))
+                if bad is not None and not clipped_elsewhere:
+                    self.block_clips.append((False, desc, bad[0],
+                                             re.sub(r"\s+", " ", self.tu.text_of(bad[0]))))
+                else:
+                    self.block_clips.append((True, desc, lst[0][0], ""))
 
     # -- worksharing constructs reached by all threads ---------------------------
     def _uniformity(self):
